@@ -10,7 +10,7 @@ from __future__ import annotations
 
 import io as _io
 
-from symx import core, strs
+from symx import core, rewrite, strs
 from symx.core import And
 from symx.run import Obligation
 from symx.shims import builtin_shims, patched
@@ -51,6 +51,7 @@ KINDS = [
     ("atom-cut-after-z", lambda i: [_atom("ATOM", 100 + i, "CA", "SER", "A", 60 + i, _x(i, 11), cut=54)]),
     ("atom-cut-after-occupancy", lambda i: [_atom("ATOM", 100 + i, "CA", "SER", "A", 60 + i, _x(i, 12), cut=60)]),
     ("atom-crlf", lambda i: [_atom("ATOM", 100 + i, "CA", "THR", "A", 80 + i, _x(i, 13), eol="\r")]),
+    ("atom-line-damaged", lambda i: [_atom("ATOM", 100 + i, "CA", "SER", "A", 65 + i, _x(i, 23), cut=[22, 26, 12][i % 3])]),
     ("TER", lambda i: ["TER"]),
     ("END", lambda i: ["END"]),
     ("blank-line", lambda i: [""]),
@@ -61,7 +62,7 @@ KINDS = [
     ("CONECT", lambda i: ["CONECT  413  412  414"]),
 ]
 KIND_NAMES = [k for k, _ in KINDS]
-QUICK_KINDS = ["water-in-atom-record", "atom-new-residue", "atom-same-residue", "atom-insertion-code", "altloc-pair-B-first", "altloc-pair-alias-name", "hetatm-water", "hetatm-water-serial-10000", "hetatm-ligand", "atom-cut-after-z", "TER", "END", "blank-line", "unknown-record"]
+QUICK_KINDS = ["atom-line-damaged", "water-in-atom-record", "atom-new-residue", "atom-same-residue", "atom-insertion-code", "altloc-pair-B-first", "altloc-pair-alias-name", "hetatm-water", "hetatm-water-serial-10000", "hetatm-ligand", "atom-cut-after-z", "TER", "END", "blank-line", "unknown-record"]
 
 PREFIX = ["HEADER    TEST", _atom("ATOM", 1, "N", "GLY", "A", 1, 1.5), _atom("ATOM", 2, "CA", "GLY", "A", 1, 2.5)]
 SUFFIX = [_atom("ATOM", 900, "CA", "ALA", "A", 99, 900.5), _atom("HETATM", 901, "O", "HOH", "A", 98, 901.5), "TER", "END"]
@@ -83,6 +84,8 @@ def _oracle(lines, drop):
                 break
         if rec not in ("ATOM", "HETATM"):
             continue
+        if len(ln) < 54:
+            continue  # a line without complete coordinates is not a record (it may be skipped, it must not affect others)
         ident = (ln[21], int(ln[22:26]), ln[26], ln[12:16].strip())
         resname = ln[17:20].strip()
         if drop and resname in ("HOH", "WAT"):
@@ -156,6 +159,28 @@ def h_records(eng, nlines, kinds, models, drop, first=None):
             eng.check(shape(bm) == shape(bm2), "drop-water-equals-deleted-waters", note=f"sequence [{' | '.join(chosen)}] layout={models}: --drop-water differs from reading the file with its water records deleted")
         except Exception as e:  # noqa: BLE001
             eng.note(f"dry file raised {type(e).__name__}")
+
+
+# ---------------------------------------------------------------------------
+# K1b: --drop-water removes a record iff its residue name IS a water name (symbolic residue name)
+# ---------------------------------------------------------------------------
+
+
+def h_drop_name(eng, rec, name_len):
+    from pdb2pqr import main, pdb
+
+    alpha = "HOWATD2"
+    if eng.symbolic:
+        res = strs.sym_name(eng, "res", name_len, alpha)
+    else:
+        res = "".join(chr(eng.int(f"res_c{k}")) for k in range(name_len))
+    line = strs.fstring((rec + "      ")[:6], "  101  O   ", " " * (3 - name_len), res, " A  17       1.500   2.500   3.500  1.00 20.00           O  ")
+    sh = (builtin_shims(pdb, ("int", "float")) + [(pdb, "str", strs.sym_str_t)] + rewrite.function_patches(main, "drop_water")) if eng.symbolic else []
+    with patched(*sh):
+        record = getattr(pdb, rec)(line)
+        kept = main.drop_water([record])
+    is_water = core.Or(strs._to_sb(res == "HOH"), strs._to_sb(res == "WAT"))
+    eng.check(core.Iff(is_water, len(kept) == 0), "dropped-iff-water", note=f"--drop-water: {rec} record of residue {str(res)!r} was {'dropped' if not kept else 'kept'}")
 
 
 # ---------------------------------------------------------------------------
@@ -265,7 +290,12 @@ def obligations(tier):
                     if tier == "quick" and rec == "HETATM" and tail != "full":
                         continue
                     obs.append(Obligation(f"line-{rec}-{'+'.join(focus)}-n{name_len}-{tail}", h_line, dict(rec=rec, focus=focus, name_len=name_len, tail=tail), group="line", time_cap=1200))
+    obs += _drop_name_obligations()
     return obs
+
+
+def _drop_name_obligations():
+    return [Obligation(f"drop-water-name-{rec}-len{n}", h_drop_name, dict(rec=rec, name_len=n), group="drop-name", time_cap=600) for rec in ("ATOM", "HETATM") for n in (1, 2, 3)]
 
 
 def encoded():
